@@ -408,7 +408,8 @@ SET_OF__encode_sorted(const asn_TYPE_member_t *elm,
 
         return encoded_els;
     } else {
-        SET_OF__encode_sorted_free(encoded_els, edx);
+        /* Including the element that failed: it may own a partial buffer */
+        SET_OF__encode_sorted_free(encoded_els, edx + 1);
         return NULL;
     }
 }
